@@ -622,6 +622,11 @@ func gen(rng *rand.Rand, tier string) []string {
 					out = append(out, fmt.Sprintf("release %d", rng.Intn(nrefs)))
 				} else {
 					out = append(out, fmt.Sprintf("rcremove %d", k))
+					if rng.Intn(2) == 0 {
+						// a reference taken after RemoveKey is the only live one
+						out = append(out, fmt.Sprintf("addref %d", k), fmt.Sprintf("release %d", nrefs), "getkeys")
+						nrefs++
+					}
 				}
 			} else {
 				out = append(out, fmt.Sprintf("removekey %d", k))
@@ -693,6 +698,8 @@ func init() {
 			{"config rc delay noretry", "setctx 1 norestart", "addref 1", "addref 1", "addref 2", "release 0", "release 0", "getkeys", "release 1", "getkeys", "addref 1", "advance", "getkeys", "rcremove 2", "release 2", "advance", "getkeysdata"},
 			// removal cancels; clear context cancels
 			{"config plain nodelay noretry", "setctx 1 norestart", "setkey 1 start", "setkey 2 start", "settle", "removekey 1", "probek 1", "setctx 0 norestart", "probeall", "retk 1 cancel", "retk 2 cancel", "advance"},
+			// refcount: references taken after RemoveKey are the only live ones
+			{"config rc nodelay noretry", "setctx 1 norestart", "addref 1", "addref 1", "rcremove 1", "getkeys", "addref 1", "release 2", "getkeys", "release 0", "release 1", "addref 1", "getkeysdata", "release 3", "getkeys"},
 			// a failed routine is removed at once even with a delay; retry then stops
 			{"config plain delay retry 1", "setctx 1 norestart", "setkey 1 start", "settle", "retk 1 err", "advance", "retk 1 err", "advance", "removekey 1", "getkeys", "advance"},
 		},
